@@ -153,7 +153,8 @@ Fixpoint pubs (fixed : bool) (c : cfg) (sc : script) (w : ws) : list val * ws :=
      final public state, public state before each op
    2 session oracle: [cfg; trace; ending; disc_handed] -> [session_ok; features_ok]
    3 misuse oracle: [cfg; pub; op; result] -> misuse_ok
-   4 payload oracle: [kind; cev; result] -> recv_ok *)
+   4 payload oracle: [kind; cev; result] -> recv_ok
+   5 wrapper close-code oracle: [cfg; cause; status; trace after the scripts] *)
 Definition run (v : val) : val :=
   match v with
   | L [I 1; fx; c; cok; mw; rt; cl; fl] =>
@@ -175,6 +176,9 @@ Definition run (v : val) : val :=
        vbool (features_ok (d_cfg c) (dlist d_attempt tr))]
   | L [I 3; c; p; o; r] => vbool (misuse_ok (d_cfg c) (d_pub p) (d_op o) (d_result r))
   | L [I 4; k; e; r] => vbool (recv_ok (dnat k) (d_cev e) (d_result r))
+  | L [I 5; c; cause; s; tr] =>
+    vbool (wrapper_close_ok (d_cfg c) fallback_ws_error_code 3000 (dnat cause) (dZ s)
+                            (dlist d_attempt tr))
   | _ => L [I (-1)]
   end.
 
